@@ -185,6 +185,7 @@ Section Life.
     set (g1 := put_node (flushed g nd) (set_hb (woken nd) (m_payload m))).
     assert (L1 : g_log g1 = g_log g ++ d) by exact L.
     assert (J1 : g_jobs g1 = g_jobs (flushed g nd)) by reflexivity.
+    clearbody g1.
     destruct (alert_frame g1 m) as (_ & _ & _ & JA & _). split; [|rewrite JA, J1; exact J].
     unfold alert. destruct (cf_callback (g_cf g1)).
     - exists (d ++ [ECallback m (proj (g_sensors g1))]). split.
@@ -371,9 +372,9 @@ Section Life.
         end, None).
   Proof.
     intros C D V TY G ZH SL. pose proof (decoded_payload_wire_ok _ _ D) as W.
-    pose proof (facts_of_cfg orc g C) as F.
+    pose proof (facts_of_cfg g C) as F.
     assert (B : between 0 4 (m_type m) = true) by (rewrite TY; reflexivity).
-    destruct (type_handler_cases orc g (m_type m) F B) as [[E _]|[[E _]|[[_ TH]|[[E _]|[E _]]]]]; try lia.
+    destruct (type_handler_cases g (m_type m) F B) as [[E _]|[[E _]|[[_ TH]|[[E _]|[E _]]]]]; try lia.
     unfold logic. rewrite D, V. cbn [negb]. rewrite TH. unfold run_handler.
     rewrite (handle_req_known g m nd G ZH W). cbn [bind].
     destruct (get_desired_value nd (m_child m) (m_sub m)) as [v|]; cbn [option_map route_opt]; [|reflexivity].
@@ -410,9 +411,9 @@ Section Life.
               (forall vti, vt_int vt = Some vti -> gw_accepts g (n_id nd) cid vti v = true -> e = ValueError).
   Proof.
     intros G ZH SL D. rewrite (set_child_value_sleeping g sid cid vt v mt a nd G ZH SL), D.
-    destruct (vt_int vt) as [vti|]; [|exists ValueError; split; [reflexivity|discriminate]].
-    destruct (gw_accepts g (n_id nd) cid vti v).
+    destruct (vt_int vt) as [vti|]; [|exists ValueError; split; [reflexivity|intros x H; discriminate H]].
+    destruct (gw_accepts g (n_id nd) cid vti v) eqn:GA.
     - exists ValueError. split; [reflexivity|reflexivity].
-    - exists VolInvalid. split; [reflexivity|]. intros x H. inversion H; subst x. discriminate.
+    - exists VolInvalid. split; [reflexivity|]. intros x H H2. inversion H; subst x. rewrite GA in H2. discriminate H2.
   Qed.
 End Life.
